@@ -4,8 +4,8 @@
    enum members       visit/model/enum_generator.py       ("_1", "_2", ... suffix loop)
    class names        emitters/models_emitter.py          (sorted by name; "2", "3", ...; a trailing "_" is dropped)
    module stems       emitters/models_emitter.py          ("_2", "_3", ...)
-   operation ids      emitters/endpoints_emitter.py       (_deduplicate_operation_ids_globally: a counter per
-                                                            method name; the new id is NOT registered: F07a)
+   operation ids      emitters/endpoints_emitter.py       (_deduplicate_operation_ids_globally: first free
+                                                            "_2", "_3", ... whose method name is unused)
    parameters         visit/endpoint/processors/parameter_processor.py (no de-duplication at all: F04c;
                                                             a colliding request-body parameter is dropped: F04d)
    The four `while candidate in seen` loops are instances of [assign]: a candidate stream per base name and
@@ -96,15 +96,24 @@ Definition dedup_enum (member : str -> option str) (vals : list str) : option (l
   end.
 
 (* ---------- operation ids ---------- *)
-Fixpoint dedup_ops_go (seen : list (str * N)) (ids : list str) : list str :=
+(* _deduplicate_operation_ids_globally: [used] = set of method names handed out so far.  An id whose method name
+   is used takes the first suffix "_2", "_3", ... whose SANITISED name is unused; that name is then registered. *)
+Fixpoint pick_idx (fuel : nat) (cand : nat -> str) (i : nat) (seen : list str) : nat :=
+  match fuel with
+  | O => i
+  | S f => if mem_str (cand i) seen then pick_idx f cand (S i) seen else i
+  end.
+Definition op_suffixed (id : str) (j : nat) : str := id ++ [95] ++ dec (N.of_nat (j + 2)).
+Fixpoint dedup_ops_go (used : list str) (ids : list str) : list str :=
   match ids with
   | [] => []
   | id :: r =>
       let m := method_name id in
-      match alookup m seen with
-      | Some n => (id ++ [95] ++ dec (n + 1)) :: dedup_ops_go (aset seen m (n + 1)) r
-      | None => id :: dedup_ops_go (aset seen m 1) r
-      end
+      if mem_str m used then
+        let k := pick_idx (S (length used)) (fun j => method_name (op_suffixed id j)) 0 used in
+        let id' := op_suffixed id k in
+        id' :: dedup_ops_go (method_name id' :: used) r
+      else id :: dedup_ops_go (m :: used) r
   end.
 Definition dedup_ops (ids : list str) : list str := dedup_ops_go [] ids.
 
@@ -133,13 +142,12 @@ Fixpoint nodupb (l : list str) : bool :=
   | x :: r => negb (mem_str x r) && nodupb r
   end.
 
-(* guard F07a: no derived method name already looks like a suffixed one ("x_<digits>") *)
+(* "x_<digits>" shape (used by the proofs: neither keywords nor reserved names have it) *)
 Definition ends_us_digits (s : str) : bool :=
   match span is_digit (rev s) with
   | (_ :: _, c :: _) => c =? 95
   | _ => false
   end.
-Definition guard_F07a (ids : list str) : bool := forallb (fun id => negb (ends_us_digits (method_name id))) ids.
 (* guard F04c: parameter names do not collide after sanitisation *)
 Definition guard_F04c (names : list str) : bool := nodupb (map method_name names).
 (* guard F04d: no parameter is named like the request-body parameter *)
